@@ -6,10 +6,12 @@ import (
 	"github.com/dadrus/heimdall/verif/props/c02"
 	"github.com/dadrus/heimdall/verif/props/c03"
 	"github.com/dadrus/heimdall/verif/props/c04"
+	"github.com/dadrus/heimdall/verif/props/c05"
 	"github.com/dadrus/heimdall/verif/props/c06"
 	"github.com/dadrus/heimdall/verif/props/c07"
 	"github.com/dadrus/heimdall/verif/props/c08"
 	"github.com/dadrus/heimdall/verif/props/c09"
+	"github.com/dadrus/heimdall/verif/props/c10"
 	"github.com/dadrus/heimdall/verif/props/c12"
 	"github.com/dadrus/heimdall/verif/props/c13"
 	"github.com/dadrus/heimdall/verif/props/c15"
@@ -26,10 +28,12 @@ func main() {
 		c02.Check(),
 		c03.Check(),
 		c04.Check(),
+		c05.Check(),
 		c06.Check(),
 		c07.Check(),
 		c08.Check(),
 		c09.Check(),
+		c10.Check(),
 		c12.Check(),
 		c13.Check(),
 		c15.Check(),
